@@ -135,11 +135,14 @@ func (r rwc) Write(p []byte) (int, error) {
 	s := r.s
 	// p is owned by the writing task; the scheduler copies it.  Atomic: the
 	// caller holds jsonrpc2's real writeMu.
+	// The scheduler must only ever read memory that no task writes again (there
+	// is no happens-before edge scheduler -> task): hand over a private copy.
+	cp := append([]byte(nil), p...)
 	resp := simrt.EnvAtomic("write", "transport", func() *simrt.Resp {
 		if s.closed || s.writeFail {
 			return &simrt.Resp{Err: &simrt.ErrData{Code: 5}}
 		}
-		s.outbuf = append(s.outbuf, p...)
+		s.outbuf = append(s.outbuf, cp...)
 		detach := s.parseOut()
 		return &simrt.Resp{Detach: detach}
 	})
@@ -304,7 +307,7 @@ func (c *simClient) WorkspaceFolders(ctx context.Context) ([]protocol.WorkspaceF
 func Start(s *simrt.Sched) *Session {
 	sess := &Session{S: s, extWait: map[string]*simrt.Task{}, extFrame: map[string]int{}}
 	sess.tokenCache = server.VerifFreshTokenCache()
-	server.VerifSwapTokenCache(sess.tokenCache)
+	sess.Activate()
 	srv := server.NewServer()
 	sess.Srv = srv
 	disp := &probeServer{Server: newServerDispatcher(srv), srv: srv}
@@ -335,8 +338,16 @@ func Start(s *simrt.Sched) *Session {
 // Activate makes this session's process-global state current (the semantic
 // token cache is a package variable of the server).
 func (s *Session) Activate() {
-	server.VerifSwapTokenCache(s.tokenCache)
+	// written only when it actually changes: in the -race build there is one
+	// session per run, so the package variable is written before the session's
+	// goroutines exist and never again (no scheduler -> task edge is needed).
+	if activeSession != s {
+		server.VerifSwapTokenCache(s.tokenCache)
+		activeSession = s
+	}
 }
+
+var activeSession *Session
 
 func (s *Session) enqueue(body []byte) {
 	hdr := fmt.Sprintf("Content-Length: %d\r\n\r\n", len(body))
@@ -407,8 +418,13 @@ func (s *Session) InboundPending() bool { return len(s.inbound) > 0 }
 // consumed by the dispatcher has been (really) woken; wait until it is back
 // under the scheduler's control.
 func (s *Session) Settle() {
-	if s.Disp.State != simrt.StParked && s.Disp.State != simrt.StDone {
-		return
+	// The dispatcher has consumed every delivered byte only when it is back in
+	// the transport's Read (bufio refills only when its buffer is empty) or gone.
+	if s.Disp.State != simrt.StDone {
+		r := s.S.Pending(s.Disp)
+		if r == nil || r.Kind != "read" {
+			return
+		}
 	}
 	ids := make([]string, 0, len(s.extFrame))
 	for id := range s.extFrame {
